@@ -340,7 +340,26 @@ def g_stream_encode(rng, n, ctx):
     return out
 
 
+def g_pad(rng, n, ctx):
+    """CommInterfaceCommon.data_align and the write_padding property."""
+    from nxslib.intf.iintf import CommInterfaceCommon
+    out = []
+    for _ in range(n):
+        pad = rng.choice([0, 0, 1, 2, 3, 4, 7, 8, 16, 64, rng.randrange(1, 40)])
+        data = rb(rng, rng.choice([0, 1, pad, 2 * pad, rng.randrange(0, 70)]))
+        obj = pyl.RawSx("(o CommInterfaceCommon (_write_padding i0) (_fread N) (_fwrite N))")
+
+        def run(pad, data):
+            c = CommInterfaceCommon(lambda: b"", lambda d: None)
+            c.write_padding = pad
+            return [c.data_align(data), c.write_padding]
+
+        out.append((pyl.fn_cmd("pad_align", [obj, pad, data]), pyl.impl_result(run, pad, data), "data_align"))
+    return out
+
+
 GROUPS = {
+    "pad": g_pad,
     "frame": g_frame,
     "requests": g_requests,
     "info_decode": g_info_decode,
